@@ -11,6 +11,7 @@ Inductive op :=
 | OSyncBegin (m : nat) | OSyncEnd (m : nat) (now : Z) (o : outcome)
 | OUpd (m : nat) (now : Z) (o : outcome)              (* updateAllocator: Check; UpdateTSO; on error ResetAllocatorGroup *)
 | OUpdBegin (m : nat) (now : Z) | OUpdEnd (m : nat) (o : outcome)
+| OUpdRdFail (m : nat) (now : Z)                      (* updateAllocator while reads of the stored window fail (writes work) *)
 | OUpdSaved (m : nat) (now : Z)                       (* UpdateTSO stopped right after its (successful) save *)
 | OUpdFinish (m : nat)                                (* ... and continued: setTSOPhysical *)
 | OUpdRead (m : nat) (now : Z)                        (* UpdateTSO stopped right after it read the memory and the clock *)
@@ -149,6 +150,28 @@ Definition run_op (s : state) (o : op) : state * obs :=
       | (s1, None) => (s1, BStarted)
       end
   | OUpdEnd m o => upd_end s m o
+  | OUpdRdFail m now =>
+      (* the read-back of refreshLastSavedTime happens only when the last save of this member is uncertain and there is
+         something to advance; it fails, UpdateTSO returns the error, updateAllocator resets the group *)
+      if valid (mems s m) then
+        match step s (LUpdRead m now) with
+        | Some s1 =>
+            match upd (mems s1 m) with
+            | URead _ =>
+                if unsure (mems s1 m) then
+                  match step s1 (LUpdAbort m) with
+                  | Some s2 => upd_finish s2 m
+                  | None => (s1, BBad)
+                  end
+                else match upd_begin s m now with
+                     | (s2, Some b) => (s2, b)
+                     | (s2, None) => upd_end s2 m Ok
+                     end
+            | _ => (s1, BOk)
+            end
+        | None => (s, BBad)
+        end
+      else (s, BSkip)
   | OUpdSaved m now =>
       match upd_begin s m now with
       | (s1, Some b) => (s1, match b with BOk => BDone | _ => b end)
